@@ -57,4 +57,11 @@ theorem n1_variant_is_repaired :
       (fun w => isValidNCur (parseN w)) ∧ n1Probe = [false, false, false] := by
   constructor <;> decide
 
+/-- the defaults merged into every abbreviated name, the `!MISSING!` marker and `MaxNameLength` are, in the working tree,
+    the values the model uses -/
+theorem constants_match :
+    constM = [sDefaultHost, sLibrary, sLatest, sMissing].map (fun s => s.map UInt8.toNat) ∧
+    maxNameLengthN = maxNameLength := by
+  constructor <;> decide
+
 end OllamaVerif.Tie.C13
